@@ -98,7 +98,28 @@ pub fn linear_stage(tier: Tier, m: &mut Merged) {
                 Some(j) => j,
                 None => break,
             };
-            let res = (|| -> Result<[u64; 3], String> { Ok([irefs(&f, &o, n)?, irefs(&f, &o, 2 * n)?, irefs(&f, &o, 4 * n)?]) })();
+            // measure at n, 2n, 4n; while the growth ratio is neither clearly linear nor clearly
+            // quadratic, escalate n by 8 (a small quadratic coefficient needs larger inputs to
+            // dominate the linear work) — at most twice
+            let mut n = n;
+            let mut res;
+            let mut round = 0;
+            loop {
+                res = (|| -> Result<[u64; 3], String> { Ok([irefs(&f, &o, n)?, irefs(&f, &o, 2 * n)?, irefs(&f, &o, 4 * n)?]) })();
+                let unclear = match &res {
+                    Ok([a, b, c]) => {
+                        let d1 = b.saturating_sub(*a) as f64;
+                        let d2 = c.saturating_sub(*b) as f64;
+                        !((*c as f64) < 1.5 * (*a as f64) || d1 < 50_000.0) && d2 / d1 > 2.25 && d2 / d1 < 3.5
+                    }
+                    Err(_) => false,
+                };
+                round += 1;
+                if !unclear || round > 2 {
+                    break;
+                }
+                n *= 8;
+            }
             r.lock().unwrap().push((f, o, n, res));
         }));
     }
